@@ -225,3 +225,203 @@ pub proof fn assume_rev_print_parse(v: RevV)
     requires rev_sys(v),
     ensures rev_parse(rev_str(v)) == Some(v), !rev_parse_panics(rev_str(v)),
 { }
+
+// ================================================================ spec of the property statement: a block as a JSON object
+pub type ChangeV = (Seq<char>, RevV, Option<RevV>);
+pub open spec fn opt_rev_view(o: Option<Revision>) -> Option<RevV> { match o { Some(r) => Some(r@), None => None } }
+/// a change record: (object uuid, new revision, previous revision if the record is an update)
+pub open spec fn change_view(c: Change) -> ChangeV { (c.0@, c.1@, opt_rev_view(c.2)) }
+pub open spec fn changes_view(cs: Seq<Change>) -> Seq<ChangeV> { cs.map_values(|c: Change| change_view(c)) }
+pub open spec fn opt_changes_view(o: Option<Vec<Change>>) -> Seq<ChangeV> {
+    match o { Some(cs) => changes_view(cs@), None => Seq::<ChangeV>::empty() }
+}
+/// creation record `[uuid, digest]`, update record `[uuid, text of the previous revision, digest]`
+pub open spec fn record_jv(c: ChangeV) -> JV {
+    match c.2 {
+        None => JV::Arr(seq![JV::Str(c.0), JV::Str(c.1.1)]),
+        Some(p) => JV::Arr(seq![JV::Str(c.0), JV::Str(rev_str(p)), JV::Str(c.1.1)]),
+    }
+}
+pub open spec fn records_jv(cs: Seq<ChangeV>) -> Seq<JV> { cs.map_values(|c: ChangeV| record_jv(c)) }
+/// `arr` lists the identifier text of every element of `ps`, each once (`ids`: the enumeration order)
+pub open spec fn is_p_enum(ps: Set<DeltaId>, ids: Seq<DeltaId>, arr: Seq<JV>) -> bool {
+    &&& ids.len() == arr.len()
+    &&& forall|i: int| 0 <= i < ids.len() ==> ps.contains(#[trigger] ids[i])
+    &&& forall|i: int| 0 <= i < ids.len() ==> #[trigger] arr[i] == JV::Str(did_str(ids[i]@))
+    &&& forall|a: DeltaId| ps.contains(a) ==> exists|i: int| 0 <= i < ids.len() && #[trigger] ids[i] == a
+    &&& forall|i: int, j: int| 0 <= i < j < ids.len() ==> ids[i] != ids[j]
+}
+pub open spec fn p_enum(ps: Set<DeltaId>, arr: Seq<JV>) -> bool { exists|ids: Seq<DeltaId>| is_p_enum(ps, ids, arr) }
+/// `arr` lists every pack name of `ks` as a string, each once
+pub open spec fn k_enum(ks: Set<Seq<char>>, arr: Seq<JV>) -> bool {
+    &&& forall|i: int| 0 <= i < arr.len() ==> (#[trigger] arr[i]) is Str && ks.contains(arr[i]->Str_0)
+    &&& forall|k: Seq<char>| ks.contains(k) ==> exists|i: int| 0 <= i < arr.len() && #[trigger] arr[i] == JV::Str(k)
+    &&& forall|i: int, j: int| 0 <= i < j < arr.len() ==> arr[i] != arr[j]
+}
+/// THE PROPERTY (writer side): `o` is the JSON object of block `d` —
+/// "c" iff there are change records (one array per record, in order), "i" iff there is an info object (that object),
+/// "p" iff there are parents (the identifier text of each, once), "k" iff there are packs (each name, once); no other key
+pub open spec fn is_block_json(d: Delta, o: Map<Seq<char>, JV>) -> bool {
+    &&& (o.contains_key(CHANGESETS_FIELD@) <==> d.changes is Some)
+    &&& (d.changes matches Some(cs) ==> o[CHANGESETS_FIELD@] == JV::Arr(records_jv(changes_view(cs@))))
+    &&& (o.contains_key(INFORMATION_FIELD@) <==> d.info is Some)
+    &&& (d.info matches Some(m) ==> o[INFORMATION_FIELD@] == JV::Obj(jm(m)))
+    &&& (o.contains_key(PARENTS_FIELD@) <==> d.parents is Some)
+    &&& (d.parents matches Some(ps) ==> o[PARENTS_FIELD@] is Arr && p_enum(ps@, o[PARENTS_FIELD@]->Arr_0))
+    &&& (o.contains_key(PACK_FIELD@) <==> d.packs is Some)
+    &&& (d.packs matches Some(ks) ==> o[PACK_FIELD@] is Arr && k_enum(sset(ks), o[PACK_FIELD@]->Arr_0))
+    &&& forall|k: Seq<char>| o.contains_key(k) ==> k == CHANGESETS_FIELD@ || k == INFORMATION_FIELD@ || k == PARENTS_FIELD@ || k == PACK_FIELD@
+}
+/// the four field names are pairwise different one-character texts
+pub proof fn lemma_field_names()
+    ensures
+        CHANGESETS_FIELD@ != INFORMATION_FIELD@, CHANGESETS_FIELD@ != PARENTS_FIELD@, CHANGESETS_FIELD@ != PACK_FIELD@,
+        INFORMATION_FIELD@ != PARENTS_FIELD@, INFORMATION_FIELD@ != PACK_FIELD@, PARENTS_FIELD@ != PACK_FIELD@,
+{
+    reveal_strlit("c"); reveal_strlit("i"); reveal_strlit("p"); reveal_strlit("k");
+    assert(CHANGESETS_FIELD@[0] == 'c' && INFORMATION_FIELD@[0] == 'i' && PARENTS_FIELD@[0] == 'p' && PACK_FIELD@[0] == 'k');
+}
+/// a JSON array of strings with the texts of record `c` is the record's array
+pub proof fn lemma_record_jv(v: JV, c: Change)
+    requires
+        v is Arr,
+        match c.2 {
+            Some(p) => v->Arr_0.len() == 3 && v->Arr_0[0] == JV::Str(c.0@) && v->Arr_0[1] == JV::Str(rev_str(p@)) && v->Arr_0[2] == JV::Str(c.1@.1),
+            None => v->Arr_0.len() == 2 && v->Arr_0[0] == JV::Str(c.0@) && v->Arr_0[1] == JV::Str(c.1@.1),
+        },
+    ensures v == record_jv(change_view(c)),
+{
+    match c.2 {
+        Some(p) => { assert(v->Arr_0 =~= seq![JV::Str(c.0@), JV::Str(rev_str(p@)), JV::Str(c.1@.1)]); }
+        None => { assert(v->Arr_0 =~= seq![JV::Str(c.0@), JV::Str(c.1@.1)]); }
+    }
+}
+
+// ================================================================ spec of the property statement: reading a block back
+/// the elements of the array stored under key k (None when the key is absent or its value is not an array)
+pub open spec fn arr_of(raw: Map<Seq<char>, JV>, k: Seq<char>) -> Option<Seq<JV>> {
+    if raw.contains_key(k) && raw[k] is Arr { Some(raw[k]->Arr_0) } else { None }
+}
+/// a "p" entry read as a block identifier
+pub open spec fn p_entry(e: JV) -> Option<DidV> { match e { JV::Str(s) => did_parse(s), _ => None } }
+/// v is the parsed form of one of the first n entries
+pub open spec fn p_upto(a: Seq<JV>, n: int, v: DidV) -> bool { exists|i: int| 0 <= i < n && p_entry(#[trigger] a[i]) == Some(v) }
+/// v is the parsed form of one of the "p" entries of the object
+pub open spec fn p_has(raw: Map<Seq<char>, JV>, v: DidV) -> bool {
+    arr_of(raw, PARENTS_FIELD@) matches Some(a) && p_upto(a, a.len() as int, v)
+}
+pub open spec fn has_view(s: Set<DeltaId>, v: DidV) -> bool { exists|a: DeltaId| s.contains(a) && a@ == v }
+pub open spec fn opt_has_view(o: Option<BTreeSet<DeltaId>>, v: DidV) -> bool { match o { Some(ps) => has_view(ps@, v), None => false } }
+/// IDENTIFIER CONSISTENCY: index 1 when there is no parent, otherwise one more than the greatest parent index
+pub open spec fn index_rule(b_index: u32, is_parent: spec_fn(DidV) -> bool) -> bool {
+    &&& forall|v: DidV| #[trigger] is_parent(v) ==> v.0 < b_index
+    &&& (forall|v: DidV| !#[trigger] is_parent(v)) ==> b_index == 1
+    &&& (exists|v: DidV| #[trigger] is_parent(v)) ==> exists|v: DidV| #[trigger] is_parent(v) && v.0 + 1 == b_index
+}
+pub open spec fn index_consistent(b: DidV, parents: Option<BTreeSet<DeltaId>>) -> bool {
+    match parents {
+        None => b.0 == 1,                                              // origin block
+        Some(ps) => index_rule(b.0, |v: DidV| has_view(ps@, v)),       // 1 + max parent index
+    }
+}
+pub open spec fn idx_ok(raw: Map<Seq<char>, JV>, b: DidV) -> bool { index_rule(b.0, |v: DidV| p_has(raw, v)) }
+/// the "i" object
+pub open spec fn i_obj(raw: Map<Seq<char>, JV>) -> Option<Map<Seq<char>, JV>> {
+    if raw.contains_key(INFORMATION_FIELD@) && raw[INFORMATION_FIELD@] is Obj { Some(raw[INFORMATION_FIELD@]->Obj_0) } else { None }
+}
+pub open spec fn opt_jm(o: Option<JMap>) -> Option<Map<Seq<char>, JV>> { match o { Some(m) => Some(jm(m)), None => None } }
+/// s is one of the first n pack names
+pub open spec fn k_upto(a: Seq<JV>, n: int, s: Seq<char>) -> bool { exists|i: int| 0 <= i < n && #[trigger] a[i] == JV::Str(s) }
+pub open spec fn k_has(raw: Map<Seq<char>, JV>, s: Seq<char>) -> bool {
+    arr_of(raw, PACK_FIELD@) matches Some(a) && k_upto(a, a.len() as int, s)
+}
+pub open spec fn opt_sset_has(o: Option<BTreeSet<String>>, s: Seq<char>) -> bool { match o { Some(ks) => sset(ks).contains(s), None => false } }
+/// a change record read back: 2 elements = creation `(uuid, Revision::new(1, digest, None), None)`,
+/// 3 elements = update `(uuid, Revision::new(prev.index + 1, digest, Some(prev)), Some(prev))`, prev parsed from the 2nd element
+pub open spec fn decode_rec(r: Seq<JV>) -> ChangeV {
+    if r.len() == 2 { (r[0]->Str_0, child_of(1, r[1]->Str_0, None), None) }
+    else {
+        let p = rev_parse(r[1]->Str_0)->Some_0;
+        (r[0]->Str_0, child_of((p.0 + 1) as u32, r[2]->Str_0, Some(p)), Some(p))
+    }
+}
+/// the records among the first n elements of the "c" array, in order (elements that are not arrays are skipped)
+pub open spec fn decode_changes(a: Seq<JV>, n: int) -> Seq<ChangeV>
+    decreases n
+{
+    if n <= 0 { Seq::<ChangeV>::empty() }
+    else {
+        let pre = decode_changes(a, n - 1);
+        match a[n - 1] { JV::Arr(r) => pre.push(decode_rec(r)), _ => pre }
+    }
+}
+pub open spec fn c_decoded(raw: Map<Seq<char>, JV>) -> Seq<ChangeV> {
+    match arr_of(raw, CHANGESETS_FIELD@) { Some(a) => decode_changes(a, a.len() as int), None => Seq::<ChangeV>::empty() }
+}
+/// THE PROPERTY (reader side): `d` is what block object `raw` named `b` reads back as
+pub open spec fn loaded(b: DidV, raw: Map<Seq<char>, JV>, d: Delta) -> bool {
+    &&& d.id matches Some(x) && x@ == b
+    // parents = the set of parsed "p" entries, None if there is none
+    &&& forall|v: DidV| #[trigger] opt_has_view(d.parents, v) <==> p_has(raw, v)
+    &&& (d.parents matches Some(ps) ==> exists|a: DeltaId| ps@.contains(a))
+    // identifier consistency, for origin blocks and for blocks with parents
+    &&& index_consistent(b, d.parents)
+    &&& (d.parents is None ==> b.0 == 1)
+    &&& opt_jm(d.info) == i_obj(raw)
+    // packs = the "k" names, None if absent or empty
+    &&& forall|s: Seq<char>| #[trigger] opt_sset_has(d.packs, s) <==> k_has(raw, s)
+    &&& (d.packs is Some <==> (arr_of(raw, PACK_FIELD@) matches Some(a) && a.len() > 0))
+    // change records in order, None if there is none
+    &&& opt_changes_view(d.changes) == c_decoded(raw)
+    &&& (d.changes matches Some(cs) ==> cs@.len() > 0)
+    &&& d.status is Pending
+}
+/// what `load_raw_delta` REQUIRES of the object (violations make the real code panic / overflow — see the unit's report):
+/// every "k" entry is a string (`p.as_str().unwrap()`), parsed parent indices and previous-revision indices are below u32::MAX
+/// (`+ 1` on a u32), the previous-revision text of an update record does not overflow `Revision::from`'s `parse::<u32>().unwrap()`
+pub open spec fn rec_bounded(e: JV) -> bool {
+    e matches JV::Arr(r) && r.len() == 3 && r[1] matches JV::Str(s) ==> !rev_parse_panics(s) && (rev_parse(s) matches Some(p) ==> p.0 < u32::MAX)
+}
+pub open spec fn inputs_bounded(raw: Map<Seq<char>, JV>) -> bool {
+    &&& (arr_of(raw, PACK_FIELD@) matches Some(a) ==> forall|i: int| 0 <= i < a.len() ==> (#[trigger] a[i]) is Str)
+    &&& forall|v: DidV| #[trigger] p_has(raw, v) ==> v.0 < u32::MAX
+    &&& (arr_of(raw, CHANGESETS_FIELD@) matches Some(a) ==> forall|i: int| 0 <= i < a.len() ==> rec_bounded(#[trigger] a[i]))
+}
+/// a syntactically acceptable record: 2 strings, or 3 strings the second of which parses as a revision
+pub open spec fn rec_ok(e: JV) -> bool {
+    e matches JV::Arr(r) ==> (r.len() == 2 && r[0] is Str && r[1] is Str)
+        || (r.len() == 3 && r[0] is Str && r[1] is Str && r[2] is Str && rev_parse(r[1]->Str_0) is Some)
+}
+/// COMPLETENESS: the objects `load_raw_delta` must accept (it may fail ONLY when this is false)
+pub open spec fn loadable(raw: Map<Seq<char>, JV>, b: DidV) -> bool {
+    &&& (raw.contains_key(INFORMATION_FIELD@) ==> raw[INFORMATION_FIELD@] is Obj)
+    &&& (raw.contains_key(PARENTS_FIELD@) ==> raw[PARENTS_FIELD@] is Arr
+            && forall|i: int| 0 <= i < raw[PARENTS_FIELD@]->Arr_0.len() ==> p_entry(#[trigger] raw[PARENTS_FIELD@]->Arr_0[i]) is Some)
+    &&& idx_ok(raw, b)
+    &&& (raw.contains_key(PACK_FIELD@) ==> raw[PACK_FIELD@] is Arr)
+    &&& (arr_of(raw, CHANGESETS_FIELD@) matches Some(a) ==> forall|i: int| 0 <= i < a.len() ==> rec_ok(#[trigger] a[i]))
+}
+
+pub proof fn lemma_p_step(a: Seq<JV>, n: int, v: DidV)
+    requires 0 <= n < a.len(),
+    ensures p_upto(a, n + 1, v) <==> (p_upto(a, n, v) || p_entry(a[n]) == Some(v)),
+{
+    if p_upto(a, n + 1, v) { let i = choose|i: int| 0 <= i < n + 1 && p_entry(#[trigger] a[i]) == Some(v); if i < n { assert(p_entry(a[i]) == Some(v)); } }
+    if p_upto(a, n, v) { let i = choose|i: int| 0 <= i < n && p_entry(#[trigger] a[i]) == Some(v); assert(0 <= i < n + 1 && p_entry(a[i]) == Some(v)); }
+    if p_entry(a[n]) == Some(v) { assert(0 <= n < n + 1 && p_entry(a[n]) == Some(v)); }
+}
+pub proof fn lemma_k_step(a: Seq<JV>, n: int, s: Seq<char>)
+    requires 0 <= n < a.len(),
+    ensures k_upto(a, n + 1, s) <==> (k_upto(a, n, s) || a[n] == JV::Str(s)),
+{
+    if k_upto(a, n + 1, s) { let i = choose|i: int| 0 <= i < n + 1 && #[trigger] a[i] == JV::Str(s); if i < n { assert(a[i] == JV::Str(s)); } }
+    if k_upto(a, n, s) { let i = choose|i: int| 0 <= i < n && #[trigger] a[i] == JV::Str(s); assert(0 <= i < n + 1 && a[i] == JV::Str(s)); }
+    if a[n] == JV::Str(s) { assert(0 <= n < n + 1 && a[n] == JV::Str(s)); }
+}
+pub proof fn lemma_has_view_insert(s: Set<DeltaId>, d: DeltaId, v: DidV)
+    ensures has_view(s.insert(d), v) <==> (has_view(s, v) || d@ == v),
+{
+    if has_view(s.insert(d), v) { let a = choose|a: DeltaId| s.insert(d).contains(a) && a@ == v; if a != d { assert(s.contains(a) && a@ == v); } }
+    if has_view(s, v) { let a = choose|a: DeltaId| s.contains(a) && a@ == v; assert(s.insert(d).contains(a) && a@ == v); }
+    if d@ == v { assert(s.insert(d).contains(d) && d@ == v); }
+}
